@@ -2,6 +2,7 @@ package stats
 
 import (
 	"fmt"
+	"runtime"
 	"sync"
 	"testing"
 
@@ -38,6 +39,14 @@ func runParallel(n, rounds int, f func(i int) error) error {
 	}
 	start.Done()
 	wg.Wait()
+	// On an oversubscribed machine the concurrent collector is starved while the goroutines allocate, and
+	// garbage of many groups piles up until the heap watchdog (meant for runaway allocation inside ONE case)
+	// fires. Collect between groups when the heap is large; no single group comes near the limit.
+	var ms runtime.MemStats
+	runtime.ReadMemStats(&ms)
+	if ms.HeapAlloc > 192<<20 {
+		runtime.GC()
+	}
 	for _, e := range errs {
 		if e != nil {
 			return e
